@@ -289,6 +289,8 @@ Proof.
     destruct (wr_line_out B w l) as (E1 & E2 & E3). rewrite E1, E2, E3, app_length, <- app_assoc. split; [reflexivity|lia].
 Qed.
 Definition BATCH : nat := 4096.
+Lemma BATCH_Z : Z.of_nat BATCH = 4096.
+Proof. reflexivity. Qed.
 Lemma BATCH_is : BATCH = IoDefs.BATCH.
 Proof. reflexivity. Qed.
 (* what IoDefs.lbuf_wr computes, in these terms *)
@@ -551,7 +553,7 @@ Section Write.
       destruct (Nat.eqb_spec k bb) as [->|]; [|reflexivity].
       destruct (Nat.eqb_spec bb kl); [unfold bb in *; lia|]. destruct (Nat.eqb_spec bb ks); [unfold bb in *; lia|]. reflexivity.
     Qed.
-    Lemma wm_start : m0 ++ [repeat VUndef 4096] = wm (repeat VUndef 4096) s0 lg0.
+    Lemma wm_start : m0 ++ [repeat VUndef BATCH] = wm (repeat VUndef BATCH) s0 lg0.
     Proof.
       unfold wm. symmetry. apply set_world_self. destruct Hw0 as [H1 H2]. pose proof ks_lt. pose proof kl_lt.
       split; rewrite nth_error_app_old by assumption; assumption.
@@ -597,7 +599,7 @@ Section Write.
 
     (* the batch block: the batched bytes in front *)
     Definition buf_ok (bufblk : block) (pend : bytes) : Prop :=
-      length bufblk = 4096%nat /\ bytes_in bufblk 0 pend /\ bytes_lt256 pend.
+      length bufblk = BATCH /\ bytes_in bufblk 0 pend /\ bytes_lt256 pend.
 
     (* if (buf_len > 0 && buf_len + nl > sizeof(buf)) { if (write_fully(fd, buf, buf_len) < 0) return 1; buf_len = 0; } *)
     Lemma wr_flush_ok pend nl bufblk s lg sz i v8 f' : buf_ok bufblk pend -> 0 <= nl <= 4611686018427387904 ->
@@ -609,7 +611,7 @@ Section Write.
         else OReturn (VInt 1) (wr_st (Z.of_nat (length pend)) sz i v8 (VInt nl) (wm bufblk r (lg ++ ev))).
     Proof.
       intros (Hlen & Hin & H256) Hnl Hf fl.
-      assert (Hpl : Z.of_nat (length pend) <= 4096) by (destruct Hin as [_ H]; lia).
+      assert (Hpl : Z.of_nat (length pend) <= 4096) by (pose proof BATCH_Z as HBZ; destruct Hin as [_ HH]; lia).
       unfold wr_flush, wr_body, wr_for, wr_st; cbn [fn_body cf_lbuf_wr]. xstep. change (wrap I64 0) with 0.
       unfold fl. destruct (Z.ltb_spec 0 (Z.of_nat (length pend))) as [H0|H0]; xstep.
       2:{ rewrite app_nil_r. reflexivity. }
@@ -624,7 +626,7 @@ Section Write.
       - cbn [Z.ltb Z.compare]. xstep. reflexivity.
     Qed.
 
-    Lemma buf_ok_put bufblk pend (l : bytes) : buf_ok bufblk pend -> (length pend + length l <= 4096)%nat -> bytes_lt256 l ->
+    Lemma buf_ok_put bufblk pend (l : bytes) : buf_ok bufblk pend -> (length pend + length l <= BATCH)%nat -> bytes_lt256 l ->
       buf_ok (put_cells bufblk (length pend) (map VInt (zb l))) (pend ++ l).
     Proof.
       intros (Hlen & [Hin Hle] & H256) Hl Hl256. cbn [skipn] in Hin.
@@ -643,7 +645,7 @@ Section Write.
     Lemma wr_long_ok pend (l : bytes) lbi bufblk s lg sz i f' : buf_ok bufblk pend ->
       nth_error (wm bufblk s lg) lbi = Some (cstr_block (zb l)) -> lbi <> ks -> lbi <> kl -> lbi <> bb -> bytes_lt256 l ->
       Z.of_nat (length l) <= 4611686018427387904 -> (length s + 2 <= fuel)%nat ->
-      ((length l < 4096)%nat -> (length pend + length l <= 4096)%nat) ->
+      ((length l < BATCH)%nat -> (length pend + length l <= BATCH)%nat) ->
       let long := 4096 <=? Z.of_nat (length l) in
       let '(ev, ok, r) := if long then wf_run fd l s else ([], true, s) in
       exec call f' wr_long (wr_st (Z.of_nat (length pend)) sz i (VPtr lbi 0) (VInt (Z.of_nat (length l))) (wm bufblk s lg))
@@ -653,7 +655,7 @@ Section Write.
         else OReturn (VInt 1) (wr_st (Z.of_nat (length pend)) sz i (VPtr lbi 0) (VInt (Z.of_nat (length l))) (wm bufblk r (lg ++ ev))).
     Proof.
       intros (Hlen & Hin & H256) Hb N1 N2 N3 Hl256 Hsz Hf Hfit long.
-      assert (Hpl : Z.of_nat (length pend) <= 4096) by (destruct Hin as [_ H]; lia).
+      assert (Hpl : Z.of_nat (length pend) <= 4096) by (pose proof BATCH_Z as HBZ; destruct Hin as [_ HH]; lia).
       unfold wr_long, wr_body, wr_for, wr_st; cbn [fn_body cf_lbuf_wr]. xstep. rewrite wrap_U64_id by lia.
       unfold long. destruct (Z.leb_spec 4096 (Z.of_nat (length l))) as [H1|H1]; xstep.
       - pose proof (wf_call lbi _ l bufblk s lg Hb N1 N2 (bytes_in_cstr l) Hl256 Hsz Hf) as X.
@@ -703,7 +705,7 @@ Section Write.
       (forall bufblk s lg, nth_error (wm bufblk s lg) lbi = Some (cstr_block (zb l))) -> lbi <> ks -> lbi <> kl -> lbi <> bb ->
       bytes_lt256 l -> Z.of_nat (length l) <= 4611686018427387904 -> 0 <= sz /\ sz + Z.of_nat (length l) <= 4611686018427387904 ->
       (length s1 + 2 <= fuel)%nat ->
-      ((length l < 4096)%nat -> (length pend1 + length l <= 4096)%nat) ->
+      ((length l < BATCH)%nat -> (length pend1 + length l <= BATCH)%nat) ->
       let long := (BATCH <=? length l)%nat in
       let '(ev, ok, r) := wa_run fd (if long then [l] else []) s1 in
       exists bl' sz' bufblk',
@@ -715,7 +717,7 @@ Section Write.
       intros Hbuf Hb N1 N2 N3 Hl256 Hll Hsz Hf Hfit long.
       pose proof (wr_long_ok pend1 l lbi bufblk s1 lg1 sz i f' Hbuf (Hb _ _ _) N1 N2 N3 Hl256 Hll Hf Hfit) as X. cbv zeta in X.
       assert (El : (4096 <=? Z.of_nat (length l)) = long)
-        by (unfold long, BATCH; destruct (Z.leb_spec 4096 (Z.of_nat (length l))); destruct (Nat.leb_spec 4096 (length l)); lia).
+        by (unfold long; pose proof BATCH_Z; destruct (Z.leb_spec 4096 (Z.of_nat (length l))); destruct (Nat.leb_spec BATCH (length l)); lia).
       rewrite El in X. rewrite exec_seq. subst long. destruct (BATCH <=? length l)%nat eqn:Elong.
       - cbn [wa_run]. destruct (wf_run fd l s1) as [[ev ok] r]. rewrite X. destruct ok.
         + unfold wr_szs, wr_body, wr_for, wr_st; cbn [fn_body cf_lbuf_wr]. xstep. rewrite chk_I64 by lia. xstep.
@@ -724,7 +726,7 @@ Section Write.
         + exists (Z.of_nat (length pend1)), sz, bufblk. split; [reflexivity|discriminate].
       - cbn [wa_run]. rewrite X.
         unfold wr_szs, wr_body, wr_for, wr_st; cbn [fn_body cf_lbuf_wr]. xstep. rewrite chk_I64 by lia. xstep.
-        assert (Hs : (length l < 4096)%nat) by (apply Nat.leb_gt in Elong; exact Elong).
+        assert (Hs : (length l < BATCH)%nat) by (apply Nat.leb_gt in Elong; exact Elong).
         exists (Z.of_nat (length pend1) + Z.of_nat (length l)), (sz + Z.of_nat (length l)), (put_cells bufblk (length pend1) (map VInt (zb l))).
         split; [reflexivity|]. intros _. split; [rewrite app_length; lia|]. split; [reflexivity|].
         apply buf_ok_put; [exact Hbuf|apply Hfit; exact Hs|exact Hl256].
@@ -766,9 +768,9 @@ Section Write.
       rewrite line_out_eq. cbv zeta. cbn [fst snd].
       set (fl := (0 <? length pend)%nat && (BATCH <? length pend + length l)%nat).
       assert (Efl : (0 <? Z.of_nat (length pend)) && (4096 <? Z.of_nat (length pend) + Z.of_nat (length l)) = fl).
-      { unfold fl, BATCH. lia. }
+      { unfold fl. pose proof BATCH_Z. lia. }
       rewrite Efl in X1. rewrite wa_run_app.
-      assert (Hpl : (length pend <= 4096)%nat) by (destruct Hbuf as (Hlen & [_ H] & _); lia).
+      assert (Hpl : (length pend <= BATCH)%nat) by (destruct Hbuf as (Hlen & [_ H] & _); lia).
       assert (Hb' : forall bufblk s lg, nth_error (wm bufblk s lg) lbi = Some (cstr_block (zb l))) by (intros; apply Old).
       assert (N3 : lbi <> bb) by (unfold bb; lia).
       destruct fl eqn:Efl'.
@@ -784,9 +786,9 @@ Section Write.
         + exists (Z.of_nat (length pend)), sz, (VPtr lbi 0), (VInt (Z.of_nat (length l))), bufblk. split; [reflexivity|discriminate].
       - (* the line fits, or nothing is batched *)
         cbn [wa_run]. rewrite X1.
-        assert (Hfit : (length l < 4096)%nat -> (length pend + length l <= 4096)%nat).
-        { intro Hs. unfold fl, BATCH in Efl'. destruct (Nat.ltb_spec 0 (length pend)); [|lia]. cbn [andb] in Efl'.
-          destruct (Nat.ltb_spec 4096 (length pend + length l)); [discriminate|lia]. }
+        assert (Hfit : (length l < BATCH)%nat -> (length pend + length l <= BATCH)%nat).
+        { intro Hs. unfold fl in Efl'. destruct (Nat.ltb_spec 0 (length pend)); [|lia]. cbn [andb] in Efl'.
+          destruct (Nat.ltb_spec BATCH (length pend + length l)); [discriminate|lia]. }
         pose proof (wr_rest_ok (Z.of_nat i) pend l lbi bufblk s (lg ++ []) sz f' Hbuf Hb' Nc1 Nc2 N3 Hl256 Hll Hsz Hf Hfit) as X2.
         cbv zeta in X2.
         destruct (wa_run fd (if (BATCH <=? length l)%nat then [l] else []) s) as [[ev2 ok2] r2].
@@ -818,7 +820,7 @@ Section Write.
                 (wr_st (Z.of_nat (length pend)) sz i v8 v9 (wm bufblk r (lg ++ ev ++ if ok then [EvTrunc fd sz] else []))).
     Proof.
       intros (Hlen & Hin & H256) Hf.
-      assert (Hpl : Z.of_nat (length pend) <= 4096) by (destruct Hin as [_ H]; lia).
+      assert (Hpl : Z.of_nat (length pend) <= 4096) by (pose proof BATCH_Z as HBZ; destruct Hin as [_ HH]; lia).
       assert (Nb : bb <> ks /\ bb <> kl) by (pose proof ks_lt; pose proof kl_lt; unfold bb; lia).
       cbn [lines_out]. unfold wr_tail, wr_st; cbn [fn_body cf_lbuf_wr]. xstep. change (wrap I64 0) with 0.
       destruct (Nat.ltb_spec 0 (length pend)) as [H0|H0].
@@ -896,16 +898,16 @@ Section Write.
               wm bufblk' r (lg0 ++ ev ++ if ok then [EvTrunc fd (Z.of_nat (length (concat ls)))] else [])).
     Proof.
       intros Hf Hf' ls.
-      assert (Hb0 : buf_ok (repeat VUndef 4096) []).
+      assert (Hb0 : buf_ok (repeat VUndef BATCH) []).
       { split; [apply repeat_length|]. split; [split; [reflexivity|rewrite repeat_length; cbn; lia]|constructor]. }
       assert (Hcat : Z.of_nat (length (concat (firstn (en - beg) (skipn beg lines)))) <= Z.of_nat (length (concat lines))).
       { rewrite <- (firstn_skipn beg lines) at 2. rewrite concat_app, app_length.
         rewrite <- (firstn_skipn (en - beg) (skipn beg lines)) at 2. rewrite concat_app, app_length. lia. }
-      pose proof (wr_loop_ok (en - beg) beg [] (repeat VUndef 4096) s0 lg0 0 VUndef VUndef fuel fuel eq_refl Hb0 ltac:(lia) Hf ltac:(lia)) as X.
+      pose proof (wr_loop_ok (en - beg) beg [] (repeat VUndef BATCH) s0 lg0 0 VUndef VUndef fuel fuel eq_refl Hb0 ltac:(lia) Hf ltac:(lia)) as X.
       cbv zeta in X. unfold ls, IoDefs.slice.
       destruct (wa_run fd (lines_out BATCH [] (firstn (en - beg) (skipn beg lines))) s0) as [[ev ok] r].
       destruct X as (st' & bufblk' & X1 & X2). exists bufblk'.
-      enterx F_lbuf_wr cf_lbuf_wr. xstep. rewrite malloc_ok by lia. xstep. change (Z.to_nat 4096) with 4096%nat.
+      enterx F_lbuf_wr cf_lbuf_wr. xstep. rewrite malloc_ok by lia. xstep. change (Z.to_nat 4096) with BATCH.
       rewrite wm_start. change (wrap I64 0) with 0.
       unfold wr_for, wr_tail, wr_st, call, bb in X1; cbn [fn_body cf_lbuf_wr length] in X1. change (Z.of_nat 0) with 0 in X1.
       rewrite X1. rewrite X2. reflexivity.
